@@ -702,7 +702,12 @@ public:
         if (auto const* mc = dyn_cast<CXXMemberCallExpr>(ce))
         {
             if (auto const* obj = mc->getImplicitObjectArgument()) o["recv"] = tree(obj, depth + 1);
-            if (auto const* me = dyn_cast_or_null<MemberExpr>(calleeE)) o["arrow"] = me->isArrow();
+            if (auto const* me = dyn_cast_or_null<MemberExpr>(calleeE))
+            {
+                o["arrow"] = me->isArrow();
+                // Base::f() : a qualified member call is not dispatched virtually
+                if (me->hasQualifier()) o["qualified"] = true;
+            }
         }
         else if (auto const* me = dyn_cast_or_null<MemberExpr>(calleeE))
         {
